@@ -6,7 +6,7 @@
    CURRENT source uses. *)
 From Coq Require Import List NArith ZArith PArith Bool Lia Permutation.
 Import ListNotations.
-Require Import Verif.Relmod.Model Verif.Relmod.StmtProps Verif.Relmod.Run.
+Require Import Verif.Relmod.Model Verif.Relmod.StmtProps Verif.Relmod.Run Verif.Relmod.SortProps.
 
 (* ---------- counting by class ---------- *)
 Definition ind (R R':relname) : nat := if relname_eqb R' R then 1 else 0.
@@ -73,7 +73,7 @@ Definition census_ep (R:relname) (e:endpoint) : nat :=
   if ep_skipped e then 0
   else if e_pubsub e then ind R REvent + census_params R (e_params e) + attrs_count R OEvent (e_attrs e)
   else ind R REp + attrs_count R OEp (e_attrs e) + census_params R (e_params e)
-       + match e_rest e with Some (u, q) => census_params R u + census_params R q | None => 0 end
+       + match e_rest e with Some (_, _, u, q) => census_params R u + census_params R q | None => 0 end
        + list_sum (map (census_stmt R) (e_stmts e)).
 
 Definition census_field (R:relname) (f:field) : nat := ind R RField + attrs_count R OField (f_attrs f).
@@ -101,7 +101,8 @@ Definition census (R:relname) (m:module) : nat := list_sum (map (census_app R) m
 Lemma count_meta R o a keys p zs at_ : rel_count R (meta o a keys p zs at_) = attrs_count R o at_.
 Proof.
   unfold rel_count, meta, attrs_count. rewrite cnt_app, !cnt_map.
-  rewrite (cnt_const _ R (RTag o)) by reflexivity. rewrite (cnt_const _ R (RAnno o)) by reflexivity. reflexivity.
+  rewrite (cnt_const _ R (RTag o)) by reflexivity. rewrite (cnt_const _ R (RAnno o)) by reflexivity.
+  unfold sort_names. rewrite sorted_by_length. reflexivity.
 Qed.
 
 Definition item_rel (it:sitem (list N)) : relname :=
@@ -110,7 +111,8 @@ Definition item_rel (it:sitem (list N)) : relname :=
 Lemma count_smeta R p a : cnt item_rel R (smeta p a) = attrs_count R OStmt a.
 Proof.
   unfold smeta, attrs_count. rewrite cnt_app, !cnt_map.
-  rewrite (cnt_const _ R (RTag OStmt)) by reflexivity. rewrite (cnt_const _ R (RAnno OStmt)) by reflexivity. reflexivity.
+  rewrite (cnt_const _ R (RTag OStmt)) by reflexivity. rewrite (cnt_const _ R (RAnno OStmt)) by reflexivity.
+  unfold sort_names. rewrite sorted_by_length. reflexivity.
 Qed.
 
 Lemma count_path_items R st : forall idx, cnt item_rel R (path_items st idx) = census_stmt R st.
@@ -130,7 +132,7 @@ Lemma count_stmt_rows R a ep stmts :
 Proof.
   unfold rel_count. rewrite cnt_map.
   assert (E : forall l, cnt (fun x => r_rel (item_row a ep x)) R l = cnt item_rel R l).
-  { intros l. unfold cnt. f_equal. apply filter_ext. intros [p c t|p t|p n]; reflexivity. }
+  { intros l. unfold cnt. f_equal. apply filter_ext. intros [p c [t rt]|p t|p n]; reflexivity. }
   rewrite E. unfold ep_items_pure. apply cnt_concat_mapi.
   apply Forall_forall. intros s _ i. apply count_path_items.
 Qed.
@@ -139,8 +141,8 @@ Lemma count_param_rows R a ep loc i p : rel_count R (param_rows a ep loc i p) = 
 Proof.
   unfold param_rows, census_param. destruct (p_type p) as [pt|].
   - unfold rel_count. rewrite cnt_app. fold (rel_count R (meta OParam a [ep; p_name p; param_loc loc p] [] [Z.of_N i] (pt_attrs pt))).
-    rewrite count_meta, cnt_cons, cnt_nil. cbn [r_rel mk]. lia.
-  - unfold rel_count. rewrite cnt_cons, cnt_nil. cbn [r_rel mk]. lia.
+    rewrite count_meta, cnt_cons, cnt_nil. cbn [r_rel mk mk2]. lia.
+  - unfold rel_count. rewrite cnt_cons, cnt_nil. cbn [r_rel mk mk2]. lia.
 Qed.
 
 Lemma count_params_rows R a ep loc ps : rel_count R (params_rows a ep loc ps) = census_params R ps.
@@ -152,16 +154,16 @@ Qed.
 Lemma count_ep_rows R a e : rel_count R (ep_rows CopyParent CopyParent a e) = census_ep R e.
 Proof.
   unfold ep_rows, census_ep. destruct (ep_skipped e); [reflexivity|]. destruct (e_pubsub e).
-  - unfold rel_count. rewrite cnt_cons, cnt_app. cbn [r_rel mk].
+  - unfold rel_count. rewrite cnt_cons, cnt_app. cbn [r_rel mk mk2].
     fold (rel_count R (params_rows a (e_name e) n_empty (e_params e))).
     fold (rel_count R (meta OEvent a [e_name e] [] [] (e_attrs e))).
     rewrite count_params_rows, count_meta. lia.
-  - unfold rel_count. rewrite cnt_cons, !cnt_app. cbn [r_rel mk].
+  - unfold rel_count. rewrite cnt_cons, !cnt_app. cbn [r_rel mk mk2].
     fold (rel_count R (meta OEp a [e_name e] [] [] (e_attrs e))).
     fold (rel_count R (params_rows a (e_name e) n_empty (e_params e))).
     fold (rel_count R (map (item_row a (e_name e)) (ep_items CopyParent CopyParent (e_stmts e)))).
     rewrite count_meta, count_params_rows. cbn [ep_items]. rewrite count_stmt_rows.
-    destruct (e_rest e) as [[u q]|].
+    destruct (e_rest e) as [[[[mth pth] u] q]|].
     + rewrite cnt_app. fold (rel_count R (params_rows a (e_name e) n_path u)).
       fold (rel_count R (params_rows a (e_name e) n_query q)). rewrite !count_params_rows. lia.
     + rewrite cnt_nil. lia.
@@ -169,7 +171,7 @@ Qed.
 
 Lemma count_field_rows R a tn f : rel_count R (field_rows a tn f) = census_field R f.
 Proof.
-  unfold field_rows, census_field, rel_count. rewrite cnt_cons. cbn [r_rel mk].
+  unfold field_rows, census_field, rel_count. rewrite cnt_cons. cbn [r_rel mk mk2].
   fold (rel_count R (meta OField a [tn; f_name f] [] [] (f_attrs f))). rewrite count_meta. reflexivity.
 Qed.
 
@@ -181,38 +183,39 @@ Qed.
 
 Lemma count_type_rows R a t : rel_count R (type_rows a t) = census_type R t.
 Proof.
-  unfold type_rows, census_type, rel_count. rewrite cnt_cons, cnt_app. cbn [r_rel mk].
+  unfold type_rows, census_type, rel_count. rewrite cnt_cons, cnt_app. cbn [r_rel mk mk2].
   fold (rel_count R (meta OType a [t_name t] [] [] (t_attrs t))). rewrite count_meta.
   destruct (t_def t) as [fs|pk fs|mt|items|].
-  - fold (rel_count R (concat (map (field_rows a (t_name t)) fs))). rewrite count_fields_rows. lia.
-  - rewrite cnt_cons. cbn [r_rel mk]. fold (rel_count R (concat (map (field_rows a (t_name t)) fs))).
-    rewrite count_fields_rows. lia.
-  - rewrite cnt_cons, cnt_nil. cbn [r_rel mk]. lia.
-  - rewrite cnt_cons, cnt_nil. cbn [r_rel mk]. lia.
+  - fold (rel_count R (concat (map (field_rows a (t_name t)) (sorted_by f_name fs)))).
+    rewrite count_fields_rows, list_sum_map_sorted. lia.
+  - rewrite cnt_cons. cbn [r_rel mk mk2]. fold (rel_count R (concat (map (field_rows a (t_name t)) (sorted_by f_name fs)))).
+    rewrite count_fields_rows, list_sum_map_sorted. lia.
+  - rewrite cnt_cons, cnt_nil. cbn [r_rel mk mk2]. lia.
+  - rewrite cnt_cons, cnt_nil. cbn [r_rel mk mk2]. lia.
   - rewrite cnt_nil. lia.
 Qed.
 
 Lemma count_view_rows R a v : rel_count R (view_rows a v) = census_view R v.
 Proof.
-  unfold view_rows, census_view, rel_count. rewrite cnt_cons. cbn [r_rel mk].
+  unfold view_rows, census_view, rel_count. rewrite cnt_cons. cbn [r_rel mk mk2].
   fold (rel_count R (meta OView a [v_name v] [] [] (v_attrs v))). rewrite count_meta. reflexivity.
 Qed.
 
 Lemma count_mixin_rows R a m : rel_count R (mixin_rows a m) = census_mixin R m.
 Proof.
-  unfold mixin_rows, census_mixin, rel_count. rewrite cnt_cons. cbn [r_rel mk].
+  unfold mixin_rows, census_mixin, rel_count. rewrite cnt_cons. cbn [r_rel mk mk2].
   fold (rel_count R (meta OMixin a (fst m) [] [] (snd m))). rewrite count_meta. reflexivity.
 Qed.
 
 Lemma count_app_rows R ap : rel_count R (app_rows CopyParent CopyParent ap) = census_app R ap.
 Proof.
-  unfold app_rows, census_app, rel_count. rewrite cnt_cons, !cnt_app, !cnt_concat_map. cbn [r_rel mk].
+  unfold app_rows, census_app, rel_count. rewrite cnt_cons, !cnt_app, !cnt_concat_map. cbn [r_rel mk mk2].
   fold (rel_count R (meta OApp (ap_name ap) [] [] [] (ap_attrs ap))). rewrite count_meta.
   rewrite (list_sum_ext _ (census_mixin R)) by (intros x _; apply count_mixin_rows).
   rewrite (list_sum_ext _ (census_ep R)) by (intros x _; apply count_ep_rows).
   rewrite (list_sum_ext _ (census_type R)) by (intros x _; apply count_type_rows).
   rewrite (list_sum_ext _ (census_view R)) by (intros x _; apply count_view_rows).
-  lia.
+  rewrite !list_sum_map_sorted. lia.
 Qed.
 
 (* exactly one row per element, for every relation and every module *)
@@ -269,7 +272,7 @@ Proof.
   2:{ intros e _. unfold census_ep. destruct (ep_skipped e); [reflexivity|]. destruct (e_pubsub e).
       - rewrite census_params_RApp. reflexivity.
       - rewrite census_params_RApp, (list_sum_zero (census_stmt RApp)) by (intros; apply census_stmt_RApp).
-        destruct (e_rest e) as [[u q]|]; [rewrite !census_params_RApp|]; reflexivity. }
+        destruct (e_rest e) as [[[[mth pth] u] q]|]; [rewrite !census_params_RApp|]; reflexivity. }
   rewrite (list_sum_zero (census_type RApp)).
   2:{ intros t _. unfold census_type.
       destruct (t_def t); try reflexivity; rewrite (list_sum_zero (census_field RApp)) by reflexivity; reflexivity. }
